@@ -7,9 +7,10 @@ META = dict(
     level="model_checking",
     bounds="every validated header field is a free full-width symbolic variable (so every single-bit flip of each magic, "
            "every version number and geometry value is covered); QCOW2 x {data-file handle given or not} x {backing: none, "
-           "file, ALLOW_NO_BACKING_FILE}; VDI; HDS; VMDK sparse extent header; Hyper-V file/replay-log/object-table headers "
+           "file, ALLOW_NO_BACKING_FILE}; VDI; HDS; VMDK sparse extent header; VHDX container (file identifier, header pair, region table, metadata table and items); Hyper-V file/replay-log/object-table headers "
            "(<= 2 unallocated object-table entries); ESXi envelope header magic/version, required attributes, cipher name, AEAD footer version",
-    outside=["VHDX container gates (region/metadata tables keyed by GUID dictionaries: not encoded)", "key store and key safe "
+    outside=["VHDX containers beyond the bounded shape (region table 1 with <= 2 entries among BAT/metadata/unknown, <= 4-5 metadata "
+             "items of which at most one deviates from the canonical order, block size 1 MiB, sector size 512)", "key store and key safe "
              "gates (text parsing); the envelope's attribute *parsing* (its gate runs on a symbolic attribute dictionary)", "QCOW2 header extensions "
              "(cut: they take no part in any gate)", "Parallels image type (expat)"],
     assumptions=["dissect.cstruct layouts as learned from the real parser each run",
@@ -19,10 +20,16 @@ META = dict(
 )
 
 
+SPLIT_DEPTH = 12
+
+
 def tasks(tier):
     out = [("qcow2", dict(data_file=False, backing="none")), ("qcow2", dict(data_file=True, backing="file")),
            ("qcow2", dict(data_file=False, backing="allow_no")),
-           ("vdi", {}), ("hds", {}), ("vmdk", {}), ("hyperv", {}), ("envelope", {})]
+           ("vdi", {}), ("hds", {}), ("vmdk", {}), ("hyperv", {}), ("envelope", {}),
+           ("vhdx", dict(n_regions=2, n_items=4))]
+    if tier == "thorough":
+        out.append(("vhdx", dict(n_regions=2, n_items=5, parent=True, time_budget=3000)))
     return out
 
 
